@@ -41,3 +41,15 @@ def lookup(fct, ids, scope_fqn):
     proved under C14).  Symbolically an uninterpreted sequence-valued function of (name, scope)."""
     from dznpy.ast_view import find_fqn
     return find_fqn(fct, ids, scope_fqn).items
+
+
+def port_semantics(ports_cfg, side, name):
+    """the semantics the configuration of that side gives the port (specs/port_selection.sem)"""
+    from specs.port_selection import sem
+    return sem(ports_cfg.provides if side == 'provides' else ports_cfg.requires, name)
+
+
+def multiclient_fixture(mc_cfg, name, itf, fct):
+    """the fixture check_multiclient_cfg returns for this port (None when the settings are absent / for another port)"""
+    from dznpy.adv_shell.core.processing import check_multiclient_cfg
+    return check_multiclient_cfg(mc_cfg, name, itf, fct)
